@@ -116,10 +116,27 @@ theorem fromLoop_frags (last : Nat) (frames : List (List Bytes)) (idx cur : Nat)
 
 /-! ### the default `encode` loop -/
 
+theorem padEven_even (fd : Bytes) : (padEven fd).length % 2 = 0 := by
+  unfold padEven
+  by_cases h : fd.length % 2 = 1
+  · rw [if_pos h]; simp only [List.length_append, List.length_cons, List.length_nil]; omega
+  · rw [if_neg h]; omega
+
+theorem padEven_spec (fd : Bytes) : ∃ k, k ≤ 1 ∧ padEven fd = fd ++ List.replicate k 0 := by
+  unfold padEven
+  by_cases h : fd.length % 2 = 1
+  · exact ⟨1, Nat.le_refl 1, by rw [if_pos h]; rfl⟩
+  · exact ⟨0, Nat.zero_le 1, by rw [if_neg h]; simp⟩
+
+theorem padEven_of_even {fd : Bytes} (h : fd.length % 2 = 0) : padEven fd = fd := by
+  unfold padEven
+  have : ¬ fd.length % 2 = 1 := by omega
+  rw [if_neg this]
+
 theorem encodeLoop_spec (enc : Nat → Option Bytes) (n frame off : Nat) (ds : List Bytes) (ts : List Nat)
     (h : encodeLoop enc n frame off = some (ds, ts)) :
     ds.length = n ∧ ts = prefixOffsets off (ds.map fun f => [f]) ∧
-      ∀ i, i < n → enc (frame + i) = ds[i]? := by
+      ∀ i, i < n → (enc (frame + i)).map padEven = ds[i]? := by
   induction n generalizing frame off ds ts with
   | zero =>
     simp only [encodeLoop, Option.some.injEq, Prod.mk.injEq] at h
@@ -135,16 +152,16 @@ theorem encodeLoop_spec (enc : Nat → Option Bytes) (n frame off : Nat) (ds : L
       · rename_i ds' ts' hrec
         simp only [Option.some.injEq, Prod.mk.injEq] at h
         obtain ⟨rfl, rfl⟩ := h
-        obtain ⟨h1, h2, h3⟩ := ih (frame + 1) (off + fd.length + 8) ds' ts' hrec
+        obtain ⟨h1, h2, h3⟩ := ih (frame + 1) (off + (padEven fd).length + 8) ds' ts' hrec
         refine ⟨by simp [h1], ?_, ?_⟩
         · simp [prefixOffsets, frameLen, h2, Nat.add_assoc]
         · intro i hi
           cases i with
-          | zero => simpa using hfd
+          | zero => simp [hfd]
           | succ i =>
             have := h3 i (by omega)
             simp only [List.getElem?_cons_succ]
-            rw [← this]; congr 1; omega
+            rw [← this]; congr 2; omega
 
 /-! ### attribute store -/
 
